@@ -388,7 +388,7 @@ func c14SelectorConcat(c *fw.Ctx, prog, input, e1, e2 string) *fw.Violation {
 }
 
 func init() {
-	fw.Register(&fw.Prop{
+	register(&fw.Prop{
 		ID: "C14",
 		Rule: "the full product {inline, -f} x {stdin, one file, two files, a missing file, a directory as file, the same file twice, /dev/stdin as a named file, a named pipe filled after it is opened, a /proc file whose reported size is 0} x {no selector, one, two, a failing one, an index past the end} x {no -o, -o -, -o FILE, -o into a missing directory} x 17 programs (printf without a final newline, empty, replacing $, silent, printing, mutating $, BEGINFILE replacing $, exit, syntax error, runtime error before / after output, $file, END, exit in BEGIN, state across values, CR LF / lone CR / LF CR inside literals and between statements) x 8 inputs (array, object, scalar, two values, empty, malformed, strings full of % directives, a byte order mark before the document), on the real binary; " +
 			"oracle: the in-process library run of the same program, selectors and inputs (stdout, outcome, JSON output) plus the wrapper laws (exit 0 iff success and nothing refused, diagnostic on stderr otherwise, no stack trace, -o FILE == bytes of -o -, a missing file refused before any output); " +
